@@ -52,7 +52,14 @@ pub fn gen_case(t: &mut Tape) -> Case {
     let crlf = t.chance(1, 6);
     let term = if crlf { Term::Crlf } else { Term::Lf };
     let pattern = if multiline {
-        super::c13::gen_pat(t).patterns[0].clone()
+        let base = super::c13::gen_pat(t).patterns[0].clone();
+        // a quarter end in a look-around right after a matched line terminator: the printers
+        // re-run the pattern on the reported block and must still see the next line's first byte
+        match t.below(8) {
+            0 => format!("(?:{base})\\n{}", *t.pick(&["\\b", "\\B", "\\b{start}", "(?-u:\\b)"])),
+            1 => format!("(?:{base})\\s+{}", *t.pick(&["\\b", "\\B"])),
+            _ => base,
+        }
     } else {
         let mut o = ReOpts::line_mode();
         o.allow_cr_nul = false;
